@@ -1280,28 +1280,45 @@ def add_invariant_checks(cls: ClassT) -> None:
         # alone. A wrapper around ``object.__new__`` would be inherited by the derived classes, so that
         # they could not define a constructor with arguments any more, and their invariants would be checked
         # before their constructors have run.
+        #
+        # A member which has been already wrapped (*e.g.*, a member inherited from a base which has invariants) is left
+        # as-is. It must not be set again on this class: an inherited member put in the ``__dict__`` of this class would
+        # take precedence over the overrides defined by the classes which come later in the method resolution order of
+        # a class deriving both from this class and from them.
         if init_func == object.__init__ and getattr(cls, "__new__") is not object.__new__:
             new_func = getattr(cls, "__new__")
-            setattr(cls, "__new__", _decorate_new_with_invariants(new_func))
+            new_wrapper = _decorate_new_with_invariants(new_func)
+            if new_wrapper is not new_func:
+                setattr(cls, "__new__", new_wrapper)
         else:
             wrapper = _decorate_with_invariants(func=init_func, is_init=True)
-            setattr(cls, init_func.__name__, wrapper)
+            if wrapper is not init_func:
+                setattr(cls, init_func.__name__, wrapper)
 
     for name, func in names_funcs:
         wrapper = _decorate_with_invariants(func=func, is_init=False)
-        setattr(cls, name, wrapper)
+        if wrapper is not func:
+            setattr(cls, name, wrapper)
 
     for name, prop in names_properties:
-        new_prop = property(
-            fget=_decorate_with_invariants(func=prop.fget, is_init=False)
+        fget = (
+            _decorate_with_invariants(func=prop.fget, is_init=False)
             if prop.fget
-            else None,
-            fset=_decorate_with_invariants(func=prop.fset, is_init=False)
-            if prop.fset
-            else None,
-            fdel=_decorate_with_invariants(func=prop.fdel, is_init=False)
-            if prop.fdel
-            else None,
-            doc=prop.__doc__,
+            else None
         )
-        setattr(cls, name, new_prop)
+        fset = (
+            _decorate_with_invariants(func=prop.fset, is_init=False)
+            if prop.fset
+            else None
+        )
+        fdel = (
+            _decorate_with_invariants(func=prop.fdel, is_init=False)
+            if prop.fdel
+            else None
+        )
+        if fget is not prop.fget or fset is not prop.fset or fdel is not prop.fdel:
+            setattr(
+                cls,
+                name,
+                property(fget=fget, fset=fset, fdel=fdel, doc=prop.__doc__),
+            )
